@@ -108,7 +108,7 @@ class Schema(object):
         cur = None
         last_tc = None
         pending = None
-        for raw in text.split("\n"):
+        for raw in _join_examples(text.split("\n")):
             line = raw.rstrip()
             st = line.strip()
             if not st:
@@ -207,6 +207,30 @@ class Schema(object):
             cur["tcs"].append(last_tc)
         if cur is not None or pending is not None:
             raise ProjectError("unterminated shape")
+
+
+_EXAMPLE_OPEN = re.compile(r'^\s*(\}\s*)?//\s*rdfs:comment\s+"')
+_EXAMPLE_END = re.compile(r'"(@[A-Za-z0-9-]+|\^\^\S+)?\s*;?\s*$')
+
+
+def _join_examples(lines):
+    """example annotations (examples_mode, outside C05) print the value as it is: a literal whose lexical form holds a line feed
+    spreads over several lines of the document; they are one annotation"""
+    out, i = [], 0
+    while i < len(lines):
+        line = lines[i]
+        m = _EXAMPLE_OPEN.match(line)
+        if m and not _EXAMPLE_END.search(line[m.end():]):
+            j = i + 1
+            while j < len(lines) and not _EXAMPLE_END.search(lines[j]):
+                j += 1
+            if j < len(lines):
+                out.append("\\n".join([line] + lines[i + 1:j + 1]))
+                i = j + 1
+                continue
+        out.append(line)
+        i += 1
+    return out
 
 
 def project(text):
